@@ -966,6 +966,18 @@ def call_builtin(I, fr, name, args, kwargs, node):
         return I.unmodelled(fr, node, name + "()")
     if name == "sum":
         return call_lib(I, fr, "numpy.sum", args[:1], {"__builtin__": const_av(True)}, node)
+    if name == "divmod" and len(args) == 2:
+        # (q, r) with a == b*q + r exactly; for a positive integer divisor literal q is int(a / b) for a >= 0 and r = a - b*q
+        a_, b_ = as_num(args[0]), as_num(args[1])
+        bc = const_num(b_)
+        if a_.kind == K_SCALAR and a_.sym is not None and isinstance(bc, int) and not isinstance(bc, bool) and bc > 0 and \
+                a_.dtype in ("int", "bool") and is_nonneg(a_.sign):
+            qs = opaque_sym("int", opaque_sym("div", a_.sym, LinExpr(bc)))
+            q_ = AV(kind=K_SCALAR, dtype="int", shape=(), sym=qs, sign=S_NONNEG, origin=frozenset(["lit"]), tags=a_.tags, note="integral")
+            r_ = AV(kind=K_SCALAR, dtype="int", shape=(), sym=a_.sym - qs.scale(bc), sign=S_NONNEG, origin=frozenset(["lit"]), tags=a_.tags,
+                    note="integral")
+            return AV(kind=K_TUPLE, items=(q_, r_))
+        return I.unmodelled(fr, node, "divmod()")
     if name in ("int", "round"):
         if a0 is None:
             return const_av(0)
@@ -983,6 +995,9 @@ def call_builtin(I, fr, name, args, kwargs, node):
             return v.replace(alg=alg1(v, alg_nonlinear), const=_NOCONST, sym=None, expo=None,
                              tags=v.tags | frozenset(["round:nearest"]))
         sym = v.sym if (v.sym is not None and v.dtype in ("int", "bool")) else None
+        if sym is None and v.sym is not None and len(v.sym.atoms()) == 1 and repr(v.sym).startswith("pow[2,int[") or \
+                (sym is None and v.sym is not None and len(v.sym.atoms()) == 1 and repr(v.sym).startswith("pow[2,ceil[")):
+            sym = v.sym      # 2 ** <an integer-valued exponent> is an integer already (a transform length; a negative exponent is no length)
         if sym is None and v.sym is not None:
             sym = opaque_sym("int", v.sym) if name == "int" else opaque_sym("round", v.sym)
         if c is not _NOCONST:
@@ -1010,6 +1025,10 @@ def call_builtin(I, fr, name, args, kwargs, node):
             sign = sign_of_number(c)
         if sym_keep is not None and c is _NOCONST:
             sym = sym_keep
+        if name == "int" and c is _NOCONST and (a0.kind == K_BOOL or v.dtype == "bool") and v.shape in ((), None) and a0.kind != K_ARRAY:
+            # int(<a truth value>) is 0 or 1: a small value set, refined by later tests of the variable (`if s:` / `if not s:`)
+            return AV(kind=K_SCALAR, dtype="int", shape=(), sym=LinExpr(fresh_atom("$v")), sign=S_NONNEG, alg=alg1(v, alg_nonlinear),
+                      tags=v.tags, indef=v.indef, origin=frozenset(["lit"]), note=("in", frozenset([0, 1])))
         return AV(kind=K_SCALAR, dtype="int", shape=(), sym=sym, const=c, sign=sign,
                   alg=alg1(v, (lambda x: x) if keep else alg_nonlinear),
                   tags=v.tags | rt, indef=v.indef, origin=frozenset(["lit"]),
@@ -1204,6 +1223,14 @@ def call_method(I, fr, name, base, args, kwargs, node):
             if name in c.methods:
                 return I.call_user(fr, c.methods[name], [selfav] + list(args), kwargs, node)
         return const_av(None)
+    if name == "bit_length" and not args and base.kind == K_SCALAR and base.dtype in ("int", "bool"):
+        # (n - 1).bit_length() is exactly ceil(log2(n)) for every integer n >= 1 (no floating-point round trip): the same symbol as
+        # the float spelling int(np.ceil(np.log2(n))) gets
+        sym = None
+        if base.sym is not None:
+            sym = opaque_sym("ceil", opaque_sym("log2", base.sym + 1))
+        return AV(kind=K_SCALAR, dtype="int", shape=(), sym=sym or LinExpr(fresh_atom("$b")), sign=S_NONNEG, origin=frozenset(["lit"]),
+                  tags=base.tags, note="integral", alg=alg1(base, alg_nonlinear))
     if base.kind == K_LIST and base.note != "range":
         if name in LIST_MUTATORS:
             if name == "append" and args:
@@ -2261,6 +2288,13 @@ def _concatenate(C):
     shapes = [p.shape for p in parts]
     if short == "vstack":                       # 1-D rows are promoted to (1, n)
         shapes = [((ONE,) + tuple(sh)) if (sh is not None and len(sh) == 1) else sh for sh in shapes]
+    if short == "stack":                        # np.stack(parts, axis=0): every part gets a new leading axis of length 1, then joined along it
+        ax_ = C.arg(1, "axis")
+        if ax_ is None or ax_.kind == K_NONE or int_const(ax_) == 0:
+            shapes = [((ONE,) + tuple(sh)) if sh is not None else None for sh in shapes]
+            short = "vstack"
+        else:
+            shapes = [None for _ in shapes]
     ja = None
     ranks = {len(sh) for sh in shapes if sh is not None}
     if all(sh is not None for sh in shapes) and len(ranks) == 1 and shapes:
